@@ -169,6 +169,14 @@ def _sim_params(kind, d, mixer=False):
                      'algorithm_params': {'trunc_params': {'chi_max': 8, 'svd_min': 1e-10}, 'mixer': mixer, 'max_sweeps': 6, 'min_sweeps': 6,
                                           'N_sweeps_check': 1, 'max_E_err': 1e-16, 'max_S_err': 1e-16},
                      'connect_measurements': [['tenpy.simulations.measurement', 'm_onsite_expectation_value', {'opname': 'Sz'}]]})
+    elif kind == 'dmrg-chi-list':
+        # the bond dimension grows by a schedule given in any key order ("an entry at_sweep: chi states that starting from sweep
+        # at_sweep the value chi is used"): a resumed engine has to pick the entry of the largest key below its sweep counter
+        base.update({'simulation_class': 'GroundStateSearch', 'algorithm_class': 'TwoSiteDMRGEngine', 'measure_at_algorithm_checkpoints': True,
+                     'algorithm_params': {'trunc_params': {'svd_min': 1e-10}, 'chi_list': {4: 8, 1: 4, 0: 2}, 'mixer': mixer, 'max_sweeps': 6, 'min_sweeps': 6,
+                                          'N_sweeps_check': 1, 'max_E_err': 1e-16, 'max_S_err': 1e-16},
+                     'connect_measurements': [['tenpy.simulations.measurement', 'm_bond_dimension', {}],
+                                              ['tenpy.simulations.measurement', 'm_onsite_expectation_value', {'opname': 'Sz'}]]})
     elif kind == 'dmrg-default-min-sweeps':
         base.update({'simulation_class': 'GroundStateSearch', 'algorithm_class': 'TwoSiteDMRGEngine',
                      'algorithm_params': {'trunc_params': {'chi_max': 8, 'svd_min': 1e-10}, 'mixer': mixer, 'max_sweeps': 6,
@@ -197,7 +205,7 @@ def m_trunc_err(results, psi, model, simulation, **kwargs):
 def resume_equals_uninterrupted(rec, quick):
     from tenpy.simulations.simulation import run_simulation, resume_from_checkpoint
     import tenpy
-    for kind, mixer in (('tebd', False), ('dmrg', False), ('dmrg', True), ('dmrg-default-min-sweeps', False), ('dmrg-measure-at-checkpoints', False),
+    for kind, mixer in (('tebd', False), ('dmrg', False), ('dmrg', True), ('dmrg-default-min-sweeps', False), ('dmrg-measure-at-checkpoints', False), ('dmrg-chi-list', False),
                         ('correlation', False), ('correlation-braket', False)) + ((('spectral', False),) if not quick else ()):
         with tempfile.TemporaryDirectory() as d:
             params = _sim_params(kind, d, mixer)
